@@ -330,7 +330,7 @@ func init() {
 		TieModule:   "GoDebian.Tie.Version",
 		Theorems:    []string{},
 		TieTheorems: []string{"GoDebian.Tie.Version.order_eq", "GoDebian.Tie.Version.cisdigit_eq", "GoDebian.Tie.Version.cisalpha_eq"},
-		Facts: []string{"version.order:translated", "fingerprint:version.verrevcmp", "fingerprint:version.Compare", "fingerprint:version.Slice.Less"},
+		Facts:       []string{"version.order:translated", "fingerprint:version.verrevcmp", "fingerprint:version.Compare", "fingerprint:version.Slice.Less"},
 		Streams: []core.Stream{
 			{Name: "vercmp", Gen: streamVercmp, Domain: "same stream as C01: ties Compare to the model the order laws are proved about"},
 			{Name: "verlaws", Gen: streamVerlaws, Domain: "triples of versions sharing prefixes (many ties and near-ties): reflexivity, sign antisymmetry, transitivity of <=, congruence of equal versions, evaluated on the real Compare; slices of 0..200 versions sorted with sort.Sort(version.Slice): permutation + non-decreasing"}},
